@@ -249,6 +249,9 @@ abbrev yData : Var := 10
 abbrev weights : Var := 11
 abbrev pointVol : Var := 12
 abbrev data : Var := 13
+abbrev anis : Var := 14
+abbrev angles : Var := 15
+abbrev lenScale : Var := 16
 abbrev f : Var := 20
 abbrev p : Var := 21
 abbrev be : Var := 22
@@ -285,6 +288,8 @@ abbrev condErr : Name := 10
 abbrev condExt : Name := 11
 abbrev krigePos : Name := 12
 abbrev krigeMat : Name := 13
+abbrev anis : Name := 14
+abbrev angles : Name := 15
 end N
 
 /-- aliasing-enabling configuration (each entry point reads only the flags that concern it) -/
@@ -316,6 +321,7 @@ structure Cfg where
   upscale : Bool := false
   fnIdentity : Bool := false
   weightsArr : Bool := false
+  pad : Bool := false
   deriving Repr, DecidableEq, Inhabited
 
 def opt (b : Bool) (l : List Op) : List Op := if b then l else []
@@ -361,12 +367,12 @@ def setPos : List Op := [.asarray V.p V.pos, .view V.p V.p true, .reshape V.p V.
 inductive EP
   | applyMNT | removeTNM | normalizerCall | normalizerFit
   | fieldCall | srfCall | condSrfCall | krigeCall | krigeSetCond
-  | varioEstimate | varioAxis | standardBins | fitVariogram | transform | pureFn
+  | varioEstimate | varioAxis | standardBins | fitVariogram | transform | pureFn | covModelInit
   deriving Repr, DecidableEq, Inhabited
 
 def EP.all : List EP :=
   [.applyMNT, .removeTNM, .normalizerCall, .normalizerFit, .fieldCall, .srfCall, .condSrfCall, .krigeCall,
-   .krigeSetCond, .varioEstimate, .varioAxis, .standardBins, .fitVariogram, .transform, .pureFn]
+   .krigeSetCond, .varioEstimate, .varioAxis, .standardBins, .fitVariogram, .transform, .pureFn, .covModelInit]
 
 def EP.ofString : String → Option EP
   | "applyMNT" => some .applyMNT | "removeTNM" => some .removeTNM
@@ -375,7 +381,7 @@ def EP.ofString : String → Option EP
   | "krigeCall" => some .krigeCall | "krigeSetCond" => some .krigeSetCond
   | "varioEstimate" => some .varioEstimate | "varioAxis" => some .varioAxis
   | "standardBins" => some .standardBins | "fitVariogram" => some .fitVariogram
-  | "transform" => some .transform | "pureFn" => some .pureFn
+  | "transform" => some .transform | "pureFn" => some .pureFn | "covModelInit" => some .covModelInit
   | _ => none
 
 /-- `Krige.__call__` body after `pre_pos` (field in `V.f`, variance in `V.kv`) -/
@@ -494,6 +500,16 @@ def pFitVariogram (directional latlon weightsArr : Bool) : List Op :=
 def pPureFn : List Op :=
   [.asarray V.x V.data, .fresh V.x, .fresh V.res, .setItem V.res, .augName V.res, .ret V.res]
 
+/-- `CovModel(dim, len_scale=…, anis=…, angles=…, latlon=…)` and the `anis` / `angles` / `len_scale` setters:
+    `set_anis` = `np.array(anis)` (a copy since commit 9340584; `np.asarray` before: `old := true`), cut to `dim-1`
+    entries (a view) or padded (new array); lat-lon models then do `out_anis[:2] = 1.0`.
+    `set_angles` always pads (new array); `len_scale` is copied by `np.array`. -/
+def pCovModelInit (pad latlon : Bool) (old : Bool := false) : List Op :=
+  [.copy V.tmp V.lenScale, .view V.tmp V.tmp false,
+   if old then .asarray V.x V.anis else .copy V.x V.anis, .view V.x V.x false]
+  ++ opt pad [.fresh V.x] ++ opt latlon [.setItem V.x]
+  ++ [.store N.anis V.x, .asarray V.y V.angles, .view V.y V.y false, .fresh V.y, .store N.angles V.y]
+
 def prog : EP → Cfg → List Op
   | .applyMNT, c => pApplyMNT c.checkShape c.stacked
   | .removeTNM, c => pRemoveTNM c.checkShape c.stacked
@@ -511,6 +527,7 @@ def prog : EP → Cfg → List Op
   | .fitVariogram, c => pFitVariogram c.directional c.latlon c.weightsArr
   | .transform, c => pTransform c.process c.fnIdentity c.storeNew c.save
   | .pureFn, _ => pPureFn
+  | .covModelInit, c => pCovModelInit c.pad c.latlon
 
 /-- the same entry points with the data flow they had before the repairs (regression witnesses) -/
 def progOld : EP → Cfg → List Op
@@ -519,6 +536,7 @@ def progOld : EP → Cfg → List Op
   | .varioAxis, c => pVarioAxis c.masked c.missing false
   | .transform, c => pTransform c.process c.fnIdentity c.storeNew c.save true
   | .fieldCall, c => pFieldCall c.fieldGiven c.storeNew c.process c.save true
+  | .covModelInit, c => pCovModelInit c.pad c.latlon true
   | ep, c => prog ep c
 
 /-! ### driver: run an entry point on a heap described by the harness -/
@@ -534,7 +552,8 @@ def cfgOfJson (j : Json) : Cfg :=
     structured := flag j "structured", fieldGiven := flag j "fieldGiven", returnVar := flag j "returnVar",
     onlyMean := flag j "onlyMean", extDrift := flag j "extDrift", condErrArr := flag j "condErrArr",
     fitVario := flag j "fitVario", reuse := flag j "reuse", keepKrige := flag j "keepKrige",
-    upscale := flag j "upscale", fnIdentity := flag j "fnIdentity", weightsArr := flag j "weightsArr" }
+    upscale := flag j "upscale", fnIdentity := flag j "fnIdentity", weightsArr := flag j "weightsArr",
+    pad := flag j "pad" }
 
 def natsJson (l : List Nat) : Json := Json.arr (l.map fun n => Json.num (JsonNumber.fromNat n)).toArray
 
